@@ -398,9 +398,13 @@ class Interp:
             # vacuity guard: a path condition that became inconsistent inside the body (an assumed contract fact that
             # contradicts the code) would make every obligation below hold trivially: recorded, reported by the runner
             if self.c.solver.check() == z3.unsat:
+                # (an infeasible path that the solver could not refute earlier also ends here: the runner reports a loop
+                # only when NO path reaches the end of its body with a consistent path condition)
                 self.c.vacuous = getattr(self.c, "vacuous", [])
-                self.c.vacuous.append("%s: path condition inconsistent at the end of the loop body" % P)
+                self.c.vacuous.append(P)
                 raise PathAbort("inconsistent path condition at the end of a loop body")
+            self.c.loop_ok = getattr(self.c, "loop_ok", [])
+            self.c.loop_ok.append(P)
             for k_, f in enumerate(invariant("preserve")):
                 self.c.oblige("%s/invariant-preserved.%d" % (P, k_), f, "ensures")
             if variant_fn:
